@@ -1497,6 +1497,13 @@ int __wrap_ppoll(struct pollfd* fds, nfds_t nfds, const struct timespec* to, con
     errno = EINTR;
     return -1;
   }
+  if (Buggify(P->spec.faults.pm_slow_wake)) {
+    // legal: the process is not scheduled (or sits stopped) for a while after the kernel has decided to
+    // wake it; whatever else ended meanwhile is reported in the same round
+    Fired("slow_wake");
+    g_k->now += (int64_t)(1 + (g_k->tape ? g_k->tape->Choice(P->spec.faults.stream, 6) : 0)) * 500000;
+    RunDueEvents();
+  }
   return scan();
 }
 
